@@ -107,6 +107,10 @@ class Magnitude:
                 return self.tree(f, t[2][0], depth + 1, self_ref)
             if last in ("ilog2", "leading_zeros", "trailing_zeros", "count_ones"):
                 return "small"
+            if last in ("sum", "max", "min") and len(t[2]) == 1 and "Iterator" in c:
+                # the sum / an extreme of the items of an iterator: the class of the items (a sum accumulates)
+                ic = self._iter_items(f, t[2][0], depth + 1)
+                return _join(ic, "acc") if (ic is not None and last == "sum") else ic
             if last == "next" and t[2]:
                 # induction variable of `for i in lo..hi`: below hi
                 for x in leaves(t[2][0]):
@@ -119,6 +123,39 @@ class Magnitude:
             return None
         if k == "index":
             return None
+        return None
+
+    def _iter_items(self, f, it, depth):
+        """class of the items an iterator expression yields (None when unknown)"""
+        if depth > 20:
+            return None
+        x = strip(it)            # iter()/into_iter()/by_ref are transparent
+        if x[0] != "call":
+            # iterating a local collection: the class of what was collected into it
+            return None
+        last = x[1].rsplit("::", 1)[-1]
+        if last in ("collect", "copied", "cloned", "rev", "skip", "take", "filter", "peekable", "fuse", "chain") and x[2]:
+            return self._iter_items(f, x[2][0], depth + 1)
+        if last in ("map", "filter_map") and len(x[2]) == 2:
+            cl = strip(x[2][1])
+            if cl[0] == "const" and isinstance(cl[2], tuple) and cl[2] and cl[2][0] == "fn":
+                return "mem" if any(str(cl[2][1]).endswith(s_) for s_ in MEM_CALLS) else None
+            if cl[0] == "agg" and cl[1][0] == "closure" and cl[1][1] in self.prog.fns:
+                g = self.prog.fns[cl[1][1]]
+                rt = Resolver(g, max_depth=24).local(0)
+                alts = rt[1] if rt[0] == "phi" else (rt,)
+                res = "small"
+                for a in alts:
+                    a = strip(a)
+                    if a[0] == "agg" and a[1][0] == "adt" and a[1][1].endswith("option::Option"):
+                        if a[1][2] != "Some":
+                            continue
+                        a = a[2][0]
+                    c_ = self.tree(g, strip_deep(a), depth + 1)
+                    if c_ is None:
+                        return None
+                    res = _join(res, c_)
+                return res
         return None
 
     # -- summaries -------------------------------------------------------------------------
